@@ -12,6 +12,7 @@ MCNoLimits == {0}
 MCVacuous == {-1}
 MCLimits == {0, 55, 58, 61, 68, 71}      \* none, inside a tick, exactly on a tick (both sides of the start price)
 MCThresholds == {-1, 6}
+MCCovLimits == {0, 58, 68}
 
 (* Vacuity guard (run with -workers 1 on a small bound): every kind of operation is taken in some
    behaviour, and a swap with several steps / a crossing / a wrap-around occurs.               *)
